@@ -6,14 +6,14 @@ import ast
 from sa.astx import NotConst, call_attr, call_name, const_eval, src, walk_local
 from sa.domains import replace_chain
 from sa.selftest import Mutant, Silent
-from sa.source import methods
+from sa.source import AnalysisError, methods
 from sa.props._lib_j import (body_always_entered, normalise, catching_handler, edge_asserts, local_defs, no_exc, node_calls, params, resolve, rsrc,
                              run_sections)
 
 PROPERTY = "C51"
 DB = "persisted/dirdbm.py"
 Q = "twisted.persisted.dirdbm.DirDBM"
-TECHNIQUE = "atomic-replace path rule on the CFG + writer/recovery suffix table agreement + alphabet evaluation"
+TECHNIQUE = "atomic-replace CFG rule, suffix-table agreement, who-may-mutate closure, exhaustive alphabet evaluation"
 EXPLANATION = (
     "Decides on DirDBM.__setitem__: data is written only to a sibling of the final path with suffix .rpl (iff the old entry "
     "exists) or .new (iff it does not); old.remove()/new.moveTo(old) are reachable only through the normal return of "
@@ -25,7 +25,14 @@ EXPLANATION = (
     "look like a temporary or leave the directory) and _decode inverts it. Who-may-mutate: only __setitem__, __delitem__, "
     "recovery and _writeFile touch the directory. Not decided: durability across power loss (no fsync), concurrent writers. "
     "Every anchor function is also checked to be entered on every call (no memoising/wrapping decorator, duplicate definition or rebinding). "
+    "Methods: structural for the write/recovery/who-may-mutate clauses; the three alphabet clauses are finite-exhaustive (the replace chain is checked to be byte-wise and is evaluated on all 66 bytes base64.encodebytes can emit). "
 )
+RULE_KINDS = {
+    "*": "structural",                                   # atomic-replace path rule on the CFG, writer/recovery suffix-table agreement, who-may-mutate closed over callers
+    "encoding/filename-safe-alphabet": "finite-exhaustive",   # replace chain evaluated on all 66 bytes encodebytes can emit (chain is byte-wise: checked)
+    "encoding/injective": "finite-exhaustive",
+    "encoding/temporaries-distinguishable": "finite-exhaustive",
+}
 ASSUMPTIONS = [
     "the rules read a normalised view of the anchored modules (sa/props/_lib_j.Normaliser): private helpers expanded at their call sites, module constants and single-assignment pure temporaries substituted, loops over constant tuples unrolled; evaluation order inside one statement is not modelled",
    
@@ -280,6 +287,12 @@ def _s_encoding(ctx, S):
     cd = replace_chain(fd)
     # an _encode without any replace() is judged like any other: its alphabet then still contains "/" and newline
     ctx.check("encodebytes" in src(fe) or "b64encode" in src(fe), "encoding/base64", Q + "._encode", "keys are not base64-encoded")
+    # domain argument: base64.encodebytes only ever emits the 64 alphabet characters, '=' and newline (B64), and every replace() of the chain has a ONE-byte
+    # pattern, so the chain acts on each output byte independently: evaluating it on each of the 66 bytes is exhaustive for every key.
+    bytewise = all(isinstance(o, bytes) and len(o) == 1 and isinstance(n, bytes) for o, n in ce)
+    if ce and not bytewise:
+        raise AnalysisError("_encode replaces multi-byte patterns: the per-byte evaluation of its alphabet is not exhaustive")
+    why = "finite-exhaustive: all 66 bytes base64.encodebytes can emit; the replace chain has one-byte patterns only, so it acts byte-wise"
     out = set()
     img = {}
     for b in B64:
@@ -290,8 +303,8 @@ def _s_encoding(ctx, S):
         out |= set(v)
     bad = [chr(c) for c in (ord("."), ord("/"), ord("\n"), 0, ord("*"), ord("?"), ord("[")) if c in out]
     ctx.check(not bad, "encoding/filename-safe-alphabet", Q + "._encode",
-              f"an encoded key can contain {bad}: an entry can be mistaken for a temporary (.rpl/.new), leave the directory, or confuse glob")
-    ctx.check(len(set(img.values())) == len(img), "encoding/injective", Q + "._encode", "two different base64 characters are encoded to the same file-name character")
+              f"an encoded key can contain {bad}: an entry can be mistaken for a temporary (.rpl/.new), leave the directory, or confuse glob", detail=why)
+    ctx.check(len(set(img.values())) == len(img), "encoding/injective", Q + "._encode", "two different base64 characters are encoded to the same file-name character", detail=why)
     ctx.check(sorted(cd) == sorted((n, o) for o, n in ce), "encoding/decode-inverts-encode", Q + "._decode", f"_decode {cd} does not invert _encode {ce}")
     ctx.check(bytes([10]) in [o for o, n in ce] and all(e.encode()[-1] not in set(img[10]) for e in writer_exts if isinstance(e, str)), "encoding/temporaries-distinguishable",
               Q + "._encode", "an encoded name (always ending in the image of the final newline) can end like a temporary suffix")
